@@ -32,17 +32,25 @@ META = dict(
                "Python call cls(*args) does per argument count (CtorTable: accepted counts and the values the constructor adds to "
                ".args by itself, probed outside any load); their stored arguments may name trap objects (module name, class name, "
                "args, text - the shape taskiq's own wrapper class stores) and are data to the model. "
+               "Names that walk through a package that is loaded towards a sub-module that is not (listed by the driver on every "
+               "run from the packages' search paths, nothing imported: taskiq's own packages, a planted package, the stdlib / "
+               "third-party packages a driver process has loaded) must import nothing and stay unresolved; a package that answers "
+               "missing attributes itself (PEP 562 __getattr__) is used for this only when it is taskiq's own - what taskiq's "
+               "own modules do on attribute lookup is taskiq's behaviour, what pydantic's / anyio's hooks import is recorded as an "
+               "observation (`foreign_lazy_package`), not judged. "
                "Trusted: Coq kernel + vm_compute; the trap objects, the "
                "Exception.__subclasses__() / sys.modules snapshots and the canonicaliser of the driver.",
     rule="case = (environment variant, entry point, payload tree with realisation choices); generated per seed; non-trivial iff "
-         "some node's name resolves to a non-exception object or the tree has nesting depth >= 1; distinct by canonical JSON",
+         "some node's name resolves to a non-exception object, or walks through a loaded package towards a sub-module that is not "
+         "loaded, or the tree has nesting depth >= 1; distinct by canonical JSON",
     trusted_base=["model: coq/theories/LoadGate.v (hand-written transcription of exception_to_python and its callers)",
                   "reference behaviour of the constructors of taskiq's own exception classes: the plain call cls(*args) in the "
                   "driver process, outside any load (loadgate_driver.probe_ctor)",
                   "trap objects, observation window and canonicaliser: harness/drivers/loadgate_driver.py",
                   "pydantic validation of Optional[Union[BaseException, ExceptionRepr]] (exercised, summarised as well-typed / "
                   "ill-typed per field), CPython type() name check, getattr"],
-    assumptions=["attribute lookup side effects (module __getattr__, properties) are outside the gate (DESIGN.md scope decision)",
+    assumptions=["attribute lookup side effects (module __getattr__ of modules that are not taskiq's own, properties) are outside "
+                 "the gate (DESIGN.md scope decision)",
                  "objects forging __class__/__bases__ are exception classes as far as Python's issubclass is concerned"],
 )
 
@@ -389,6 +397,51 @@ def rich_args(r, paths, n, tab):
     return out
 
 
+# --------------------------------------------------------------------------- loaded packages, unloaded sub-modules
+MADE_UP = ["NoSuchError", "zz_absent", "Boom", "main", "run", "Error"]
+
+
+def lazy_targets(view):
+    """flatten the driver's list (special: lazy_view) into targets: a loaded package, one first segment that Python's own
+    getattr cannot resolve on it without an import (a sub-module file that is not loaded; a name its __all__ promises but
+    does not bind), the ways to arrive at the package from a sys.modules key, what could follow the segment.
+    A package that answers missing attributes itself (PEP 562 __getattr__, module subclass) is used only when it is
+    taskiq's own: what somebody else's attribute hook does is Python's getattr (scope decision in DESIGN.md)"""
+    out, skipped = [], []
+    for p in view["packages"]:
+        if p["hook"] and p["owner"] != "taskiq":
+            skipped.append(p["pkg"])
+            continue
+        for u in p["unloaded"]:
+            out.append(dict(pkg=p["pkg"], seg=u["name"], owner=p["owner"], roots=p["roots"], names=u["names"],
+                            children=[dict(name=c["name"], names=c["names"]) for c in u["children"]], how="submodule"))
+        for n in p["declared"]:
+            if all(n != u["name"] for u in p["unloaded"]):
+                out.append(dict(pkg=p["pkg"], seg=n, owner=p["owner"], roots=p["roots"], names=[], children=[], how="declared"))
+    return out, skipped
+
+
+def pick_lazy(r, lazy):
+    k = r.random()
+    want = "taskiq" if k < .5 else "planted" if k < .7 else "other"
+    return r.choice([t for t in lazy if t["owner"] == want] or lazy)
+
+
+def lazy_name(r, t):
+    """(exc_module, exc_type, shape) for a target"""
+    chain, names = [t["seg"]], t["names"]
+    if t["children"] and r.random() < .4:
+        c = r.choice(t["children"])
+        chain, names = chain + [c["name"]], c["names"]
+    attr = r.choice(names) if names and r.random() < .6 else r.choice(MADE_UP)
+    if t["how"] == "submodule" and r.random() < .2:
+        # the sub-module that is not loaded named as the module itself
+        return ".".join([t["pkg"]] + chain), (attr if r.random() < .8 else attr + ".Inner"), "module-named-directly"
+    root, walk = r.choice(t["roots"]) if r.random() < .5 else t["roots"][0]
+    tail = chain + ([attr] if r.random() < .9 else [])
+    return root, ".".join(walk + tail), ("through-an-ancestor" if walk else "package-attribute")
+
+
 # --------------------------------------------------------------------------- payloads
 BAD = dict(
     ty=[MISSING, 5, None, ["x"], {"a": 1}, 1.5, True],
@@ -401,13 +454,20 @@ SUP_AS = {True: [True, 1, "yes", "true", "1", "on"], False: [False, 0, "no", "of
 
 
 def gen_node(r, env, paths, entry, depth, cat=None, gx=None):
-    """one well-formed dict node (children filled by the caller); gx = (paths of the taskiq view, the case's Tab)"""
-    tq, tab = gx or ([], None)
-    cat = cat or r.choice(["exc"] * 9 + ["nonexc"] * 5 + ["unres"] * 5 + ["badname"] + (["tq"] * 2 if tq else []))
+    """one well-formed dict node (children filled by the caller); gx = (paths of the taskiq view, the case's Tab,
+    the lazy targets)"""
+    tq, tab, lazy = (tuple(gx) + ([],))[:3] if gx else ([], None, [])
+    cat = cat or r.choice(["exc"] * 9 + ["nonexc"] * 5 + ["unres"] * 5 + ["badname"] + (["tq"] * 2 if tq else [])
+                          + (["lazy"] * 2 if lazy else []))
     excs = [p for p in paths if p[2]["kind"] == "exc" and p[1]]
     nonexc = [p for p in paths if p[2]["kind"] != "exc"]
-    nargs = rich = None
-    if cat == "tq":
+    nargs = rich = target = None
+    if cat == "lazy":
+        # a walk that passes through packages that ARE loaded towards a sub-module that is NOT: nothing may get imported,
+        # the name stays unresolved
+        target = pick_lazy(r, lazy)
+        md, ty, shape = lazy_name(r, target)
+    elif cat == "tq":
         # names that resolve into what taskiq itself ships: its exception classes (constructors that do more than store
         # their arguments) through every module that exposes them, now and then its functions / classes / modules
         tqexc = [p for p in tq if p[2]["kind"] == "exc"]
@@ -458,6 +518,8 @@ def gen_node(r, env, paths, entry, depth, cat=None, gx=None):
             node["args"]["tuple"] = True
     if r.random() < .15:
         node["extra"] = r.choice([{"exc_extra": 1}, {"__class__": "os.system"}, {"exc_traceback": ["x"]}, {"cls": "eval"}])
+    if target is not None:
+        node["lazy"] = dict(pkg=target["pkg"], seg=target["seg"], owner=target["owner"], how=target["how"], shape=shape)
     return node
 
 
@@ -550,8 +612,8 @@ def has_bad_name(raw):
 
 def gen_case(r, envs):
     k = r.randrange(len(envs))
-    env, paths, tq = envs[k]
-    gx = (tq, Tab(env.get("argconst", ())))
+    env, paths, tq = envs[k][:3]
+    gx = (tq, Tab(env.get("argconst", ())), envs[k][3] if len(envs[k]) > 3 else [])
     entry = r.choice(ENTRIES)
     d = r.random()
     depth = 0 if d < .3 else 1 if d < .6 else 2 if d < .8 else 3 if d < .92 else 4
@@ -567,7 +629,16 @@ def gen_case(r, envs):
             raw = malform(r, raw, entry)
         if entry != "json":
             mark_as_obj(r, raw)
-    return dict(env_id=k, env=env, entry=entry, raw=raw, argtab=gx[1].tab)
+    return dict(env_id=k, env=env, entry=entry, raw=raw, argtab=gx[1].tab, lazy=lazy_of(raw))
+
+
+def lazy_nodes(raw):
+    return [(p, n) for p, n in nodes_of(raw) if n["k"] == "dict" and "lazy" in n]
+
+
+def lazy_of(raw):
+    """the sub-modules the driver must find (or make) unloaded while it loads this payload"""
+    return sorted({(n["lazy"]["pkg"], n["lazy"]["seg"]) for _p, n in lazy_nodes(raw)})
 
 
 # --------------------------------------------------------------------------- direct oracle (independent of the model)
@@ -676,7 +747,7 @@ def rich_nodes(raw):
 
 
 def nontrivial(case):
-    if depth_of(case["raw"]) >= 2 or rich_nodes(case["raw"]):
+    if depth_of(case["raw"]) >= 2 or rich_nodes(case["raw"]) or lazy_nodes(case["raw"]):
         return True
     for _, n in nodes_of(case["raw"]):
         if n["k"] == "dict" and "ok" in n["ty"] and "ok" in n["md"] and isinstance(n["ty"]["ok"], str):
@@ -801,6 +872,8 @@ def driver_case(c):
     d = dict(env=c["env"], entry=c["entry"], raw=c["raw"])
     if c.get("argtab"):
         d["argtab"] = c["argtab"]
+    if c.get("lazy"):
+        d["lazy"] = [list(x) for x in c["lazy"]]
     return d
 
 
@@ -879,6 +952,15 @@ def coverage(rep, c, o):
     for _, n in nodes_of(c["raw"]):
         if n["k"] == "inst" and "wrapper" in n["i"] and py_resolve(c["env"], n["i"]["wrapper"][1], n["i"]["wrapper"][0])[0] == "found":
             rep.count("branch:restore=wrapper-naming-a-loaded-object")
+    for p, n in lazy_nodes(c["raw"]):
+        z = n["lazy"]
+        rep.count("lazy:loaded-package-to-unloaded-submodule")
+        rep.count("lazy:owner=" + z.get("owner", "?"))
+        rep.count("lazy:first-segment=" + z.get("how", "?"))
+        rep.count("lazy:shape=" + z.get("shape", "?"))
+        rep.count("lazy:at=" + ("top" if not p else "nested"))
+    if o.get("lazy_pre"):
+        rep.count("lazy:driver-had-loaded-the-target-and-removed-it-for-the-case")
     for e in o["eff"]:
         rep.count("effect:" + e[0])
 
@@ -921,16 +1003,36 @@ def grid_cases(env):
     return out
 
 
-SPECIALS = [dict(special="lazy_getattr"), dict(special="forged_class"), dict(special="pickle_path")]
+SPECIALS = [dict(special="lazy_getattr"), dict(special="forged_class"), dict(special="pickle_path"),
+            dict(special="foreign_lazy_package")]
 
 
-def make_envs(ctx, n, view=None):
+def make_envs(ctx, n, view=None, lazy=()):
     r = ctx.sub_rng("env")
     out = []
     for k in range(n):
         e = gen_env(r, k, view)
-        out.append((e, env_paths(e, ""), env_paths(e, "taskiq")))
+        out.append((e, env_paths(e, ""), env_paths(e, "taskiq"), list(lazy)))
     return out
+
+
+def discover_lazy(ctx, rep):
+    """ask the implementation side which packages are loaded in a driver process and which of their sub-modules (files on
+    the package's search path, listed without importing anything) are not"""
+    d = C.run_driver(ctx, "loadgate_driver", [dict(special="lazy_view")], nproc=1)[0]
+    if "_crash" in d:
+        rep.fail("driver crashed while listing loaded packages and their unloaded sub-modules", dict(special="lazy_view"),
+                 observed=d["_crash"][-600:], sig=dict(clause="crash"))
+        return []
+    lazy, skipped = lazy_targets(d)
+    rep.extra["lazy_view"] = dict(
+        targets=len(lazy),
+        packages={o: sorted({t["pkg"] for t in lazy if t["owner"] == o}) for o in ("taskiq", "planted", "other")},
+        taskiq_submodules_not_loaded_in_the_driver=sorted(t["pkg"] + "." + t["seg"] for t in lazy
+                                                          if t["owner"] == "taskiq" and t["how"] == "submodule"),
+        taskiq_packages_with_an_attribute_hook=sorted(p["pkg"] for p in d["packages"] if p["hook"] and p["owner"] == "taskiq"),
+        not_used_because_the_package_answers_missing_attributes_itself=skipped)
+    return lazy
 
 
 def discover_view(ctx, rep):
@@ -955,7 +1057,8 @@ def run(ctx):
     if corpus:
         explore(ctx, rep, corpus, "corpus")
     view = discover_view(ctx, rep)
-    envs = make_envs(ctx, ctx.n(8, 40), view)
+    lazy = discover_lazy(ctx, rep)
+    envs = make_envs(ctx, ctx.n(8, 40), view, lazy)
     r = ctx.sub_rng("gen")
     cases = [gen_case(r, envs) for _ in range(ctx.n(2400, 30000))]
     broken = explore(ctx, rep, cases, "main")
@@ -969,7 +1072,7 @@ def run(ctx):
     rep.extra["observations_outside_scope"] = sp
     if (broken or any(not o["ok"] for o in rep.obligations)) and not rep.failures:
         r2 = ctx.sub_rng("search")
-        envs2 = make_envs(ctx, 12, view)
+        envs2 = make_envs(ctx, 12, view, lazy)
         explore(ctx, rep, [gen_case(r2, envs2) for _ in range(ctx.n(12000, 60000))], "search")
     return rep.finish()
 
